@@ -102,12 +102,15 @@ def gen_scenario(seed: int, light: bool = False) -> Dict[str, Any]:
                 return [math.cos(a), math.sin(a), 0.0]
             return list(unit([rs.uniform(-1, 1), rs.uniform(-1, 1), rs.uniform(-1, 1)]) if True else [])
 
+        # sometimes the constraint ends at (or just past) the vertex: a bounded solver then
+        # stops on the bound, and the next iteration starts from there
+        near_end = rs.chance(0.3)
         if t == "line":
             d = np.array(direction())
-            a, b = rs.uniform(0.1, 0.5), rs.uniform(0.1, 0.5)
+            a, b = rs.uniform(0.1, 0.5), (rs.pick([0.0, rs.uniform(0.0, 0.03)]) if near_end else rs.uniform(0.1, 0.5))
             spec["p1"] = [round(x, 6) for x in (p - a * d)]
             spec["p2"] = [round(x, 6) for x in (p + b * d)]
-            if rs.chance(0.5):
+            if rs.chance(0.5) and not near_end:
                 L = float(np.linalg.norm(np.array(spec["p2"]) - np.array(spec["p1"])))
                 spec["bounds"] = [round(rs.uniform(0, 0.3) * L, 6), round(rs.uniform(0.7, 1.0) * L, 6)]
         elif t == "plane":
@@ -123,7 +126,7 @@ def gen_scenario(seed: int, light: bool = False) -> Dict[str, Any]:
                 spec["bounds"] = [round(-rs.uniform(0.05, 0.4), 6), round(rs.uniform(0.05, 0.4), 6)]
         elif t == "curve_line":
             d = np.array(direction())
-            a, b = rs.uniform(0.2, 0.6), rs.uniform(0.2, 0.6)
+            a, b = rs.uniform(0.2, 0.6), (rs.pick([0.0, rs.uniform(0.0, 0.03)]) if near_end else rs.uniform(0.2, 0.6))
             spec["p1"] = [round(x, 6) for x in (p - a * d)]
             spec["p2"] = [round(x, 6) for x in (p + b * d)]
         elif t == "curve_circle":
@@ -176,7 +179,9 @@ def gen_scenario(seed: int, light: bool = False) -> Dict[str, Any]:
             if np.linalg.norm(origin) == 0:
                 # plane through the global origin: mirror the leader there (follower node moves)
                 n = np.array([1.0, 0.0, 0.0]) if abs(pl[0]) > 0.05 else np.array([0.0, 1.0, 0.0])
-            lk["normal"] = [round(x, 6) for x in n]
+            # a plane normal need not be a unit vector
+            scale = rs.pick([1.0, 1.0, rs.uniform(0.3, 3.0)])
+            lk["normal"] = [round(x * scale, 6) for x in n]
             lk["origin"] = [round(x, 6) for x in origin]
             img = mirror_pt(pl, np.array(lk["normal"]), np.array(lk["origin"]))
             # only usable when the image is a sensible place for that vertex (close to where it was)
